@@ -1633,7 +1633,9 @@ def idx_list_to_index_array(idx_list):
     if len(idx_list) == 0:
         return None
     elif len(idx_list) == 1:
-        return idx_list[0].as_array()
+        # use the shaped version so that negative indices are normalized and non-flat indices
+        # into a multidimensional source are expanded to flat source positions
+        return idx_list[0].shaped_array()
     else:
         idx = idx_list[0]
         arr = np.arange(shape_to_len(idx._src_shape)).reshape(idx._src_shape)
